@@ -242,10 +242,6 @@ impl Type {
         if sig.len() > 255 {
             return Err(Error::SignatureTooLong);
         }
-        if sig.is_empty() {
-            return Err(Error::EmptySignature);
-        }
-
         let mut tokens = make_tokens(sig.chars()).peekable();
         let mut types = Vec::new();
         while let Some(t) = Self::parse_next_type(&mut tokens, None)? {
